@@ -30,7 +30,8 @@ func (u *Unit) heapWF(h Term, vs Sort, alloc Term) {
 	case SLoc:
 		u.assume(True, Forall([]Term{l}, And(Le(Obj(v), alloc), Ge(Off(v), IntLit(0))), []Term{v}))
 	case SSlice:
-		u.assume(True, Forall([]Term{l}, And(Le(Obj(SPtr(v)), alloc), Le(IntLit(0), SLen(v)), Le(SLen(v), SCap(v)), Ge(Off(SPtr(v)), IntLit(0))), []Term{v}))
+		u.assume(True, Forall([]Term{l}, And(Le(Obj(SPtr(v)), alloc), Le(IntLit(0), SLen(v)), Le(SLen(v), SCap(v)), Ge(Off(SPtr(v)), IntLit(0)),
+			Or(Neq(Obj(SPtr(v)), IntLit(0)), Eq(SCap(v), IntLit(0)))), []Term{v}))
 	case SIface:
 		u.assume(True, Forall([]Term{l}, Le(Obj(IVal(v)), alloc), []Term{v}))
 	}
@@ -92,12 +93,25 @@ func (fr *Frame) bindResults(v ssa.Value, t types.Type, res []Term, st *State) {
 
 // doCall performs a call. preArgs (if non-nil) are already evaluated argument terms (deferred calls).
 func (fr *Frame) doCall(c *ssa.CallCommon, site ssa.Instruction, st *State, preArgs []Term, preFn Term) ([]Term, *State) {
-	u := fr.u
 	args := preArgs
 	if args == nil {
 		for _, a := range c.Args {
 			args = append(args, fr.val(a))
 		}
+	}
+	fr.checkCallSiteAsserts(c, args, preFn, preArgs == nil, st, site.Pos(), nil, false)
+	res, out := fr.doCallInner(c, site, st, args, preArgs == nil, preFn)
+	if out != nil {
+		fr.checkCallSiteAsserts(c, args, preFn, preArgs == nil, out, site.Pos(), res, true)
+	}
+	return res, out
+}
+
+func (fr *Frame) doCallInner(c *ssa.CallCommon, site ssa.Instruction, st *State, args []Term, evalFn bool, preFn Term) ([]Term, *State) {
+	u := fr.u
+	var preArgs []Term
+	if !evalFn {
+		preArgs = args
 	}
 	pos := site.Pos()
 	if c.IsInvoke() {
@@ -885,6 +899,29 @@ func (fr *Frame) execCopy(c *ssa.CallCommon, args []Term, st *State, pos token.P
 	l := Sym("l!", SLoc)
 	at := func(s Term, idx Term) Term { return Elem(SPtr(s), idx) }
 	u.assume(st.pc, Forall([]Term{i}, Implies(And(Le(IntLit(0), i), Lt(i, n)), Eq(Select(h2, at(dst, i), vs), Select(h, at(src, i), vs))), []Term{Select(h2, at(dst, i), vs)}))
+	// the same fact indexed from the bases of the sliced operands (copy(s[a:], t[b:])): quantified facts about the
+	// elements of s and t are stated (and triggered) on elem(sptr s, k), not on elem(elem(sptr s, a), i)
+	decompose := func(v ssa.Value, whole Term) (base Term, off Term) {
+		if sl, ok := v.(*ssa.Slice); ok && sl.Max == nil {
+			if _, isSlice := sl.X.Type().Underlying().(*types.Slice); isSlice {
+				lo := IntLit(0)
+				if sl.Low != nil {
+					lo = fr.val(sl.Low)
+				}
+				return SPtr(fr.val(sl.X)), lo
+			}
+		}
+		return SPtr(whole), IntLit(0)
+	}
+	if len(c.Args) == 2 {
+		pB, a := decompose(c.Args[0], dst)
+		qB, b := decompose(c.Args[1], src)
+		if a.S != "0" || b.S != "0" {
+			k := Sym("k!", SInt)
+			u.assume(st.pc, Forall([]Term{k}, Implies(And(Le(a, k), Lt(k, Add(a, n))),
+				Eq(Select(h2, Elem(pB, k), vs), Select(h, Elem(qB, Add(b, Sub(k, a))), vs))), []Term{Select(h2, Elem(pB, k), vs)}))
+		}
+	}
 	inDst := And(Eq(Obj(l), Obj(SPtr(dst))), Le(Off(SPtr(dst)), Off(l)), Lt(Off(l), Add(Off(SPtr(dst)), n)))
 	u.assume(st.pc, Forall([]Term{l}, Implies(Not(inDst), Eq(Select(h2, l, vs), Select(h, l, vs))), []Term{Select(h2, l, vs)}))
 	u.recordWriteTerm(fr, key, SPtr(dst), c.Args[0])
@@ -1432,4 +1469,92 @@ func (fr *Frame) varargElems(v ssa.Value) ([]Term, []string, bool) {
 		}
 	}
 	return out, tys, true
+}
+
+// checkCallSiteAsserts: `callsite CALLEE requires EXPR` / `callsite CALLEE ensures EXPR` clauses of the enclosing
+// function's contract (or of the unit's root contract) are assertions before / after every call of CALLEE: EXPR is
+// evaluated in the caller's state, with the caller's locals in scope, the call's arguments as arg0, arg1... and (after
+// the call) its results as result / result0..; old(...) is the state at function entry. Like any assertion it is an
+// obligation first and a known fact afterwards (a cut that keeps the later queries small).
+func (fr *Frame) checkCallSiteAsserts(c *ssa.CallCommon, args []Term, preFn Term, evalRecv bool, st *State, pos token.Pos, results []Term, post bool) {
+	u := fr.u
+	pick := func(ct *Contract) map[string][]Clause {
+		if ct == nil {
+			return nil
+		}
+		if post {
+			return ct.CallSitesPost
+		}
+		return ct.CallSites
+	}
+	var maps []map[string][]Clause
+	if m := pick(fr.contract); len(m) > 0 {
+		maps = append(maps, m)
+	}
+	if u.contract != fr.contract {
+		if m := pick(u.contract); len(m) > 0 {
+			maps = append(maps, m)
+		}
+	}
+	if len(maps) == 0 {
+		return
+	}
+	key := ""
+	all := args
+	var argTypes []types.Type
+	if c.IsInvoke() {
+		key = ifaceMethodKey(c.Value.Type(), c.Method.Name())
+		recv := preFn
+		if evalRecv {
+			recv = fr.val(c.Value)
+		}
+		all = append([]Term{recv}, args...)
+		argTypes = append(argTypes, c.Value.Type())
+	} else {
+		switch callee := c.Value.(type) {
+		case *ssa.Function:
+			key = funcKey(callee)
+		case *ssa.MakeClosure:
+			key = funcKey(callee.Fn.(*ssa.Function))
+		case *ssa.Builtin:
+			key = "builtin." + callee.Name()
+		default:
+			return
+		}
+	}
+	for _, a := range c.Args {
+		argTypes = append(argTypes, a.Type())
+	}
+	kind := "callsite"
+	if post {
+		kind = "callsite-post"
+	}
+	for _, m := range maps {
+		for _, name := range sortedKeys(m) {
+			if key != name && !strings.HasSuffix(key, "."+name) {
+				continue
+			}
+			names := fr.baseNames(st)
+			for i, a := range all {
+				if i < len(argTypes) {
+					names[fmt.Sprintf("arg%d", i)] = tval{t: a, ty: argTypes[i]}
+				}
+			}
+			if post {
+				for k, v := range resultNames(c.Signature(), results) {
+					names[k] = v
+				}
+			}
+			for _, cl := range m[name] {
+				ctx := fr.newEvalCtx(st, fr.entry, names)
+				v, err := ctx.eval(cl.E)
+				if err != nil || v.t.Sort != SBool {
+					u.bindErrors = append(u.bindErrors, fmt.Sprintf("%s callsite %s %q: %v", fr.key, name, cl.Text, err))
+					continue
+				}
+				u.oblige(fr, kind, pos, fmt.Sprintf("%s: %s", name, cl.Text), st.pc, v.t, false)
+				u.assume(st.pc, v.t)
+			}
+		}
+	}
 }
